@@ -68,21 +68,50 @@ func c06Run(o *vOut, r *vRand, m *c06Msg, v6 bool, loopOk bool) {
 				p = true
 			}
 		}()
-		derr = msg.DecodeFromBytes(body, &MarshallingOption{Use2ByteAS: m.use2})
+		opt := &MarshallingOption{Use2ByteAS: m.use2}
+		if m.ap4 || m.ap6 {
+			opt.AddPath = map[Family]BGPAddPathMode{}
+			if m.ap4 {
+				opt.AddPath[RF_IPv4_UC] = BGP_ADD_PATH_RECEIVE
+			}
+			if m.ap6 {
+				opt.AddPath[RF_IPv6_UC] = BGP_ADD_PATH_RECEIVE
+			}
+		}
+		derr = msg.DecodeFromBytes(body, opt)
 		return false
 	}()
+	// the protocol line: `<use2> <hex>`, or `<use2> <ap4> <ap6> <hex>` for an ADD-PATH session
+	arg := fmt.Sprintf("%d %s", c06B(m.use2), hx)
+	if m.ap4 || m.ap6 {
+		arg = fmt.Sprintf("%d %d %d %s", c06B(m.use2), c06B(m.ap4), c06B(m.ap6), hx)
+		o.stat("addpath_messages", 1)
+	}
 	if panicked {
-		o.ask("panic", "dec %d %s", c06B(m.use2), hx)
+		o.ask("panic", "dec %s", arg)
 		o.fail("decode-panic", map[string]any{"body": hx, "faults": m.faultNames()})
 		return
 	}
 	cls := c06Class(derr)
 	o.stat(fmt.Sprintf("decode_class_%d", cls), 1)
 	if cls == 4 {
-		o.ask("err="+c06ErrString(derr), "dec %d %s", c06B(m.use2), hx)
+		o.ask("err="+c06ErrString(derr), "dec %s", arg)
 	} else {
-		o.ask(fmt.Sprintf("err=%s attrs=%s wd=%d nlri=%d", c06ErrString(derr), c06AttrString(msg.PathAttributes), len(msg.WithdrawnRoutes), len(msg.NLRI)),
-			"dec %d %s", c06B(m.use2), hx)
+		line := fmt.Sprintf("err=%s attrs=%s wd=%d nlri=%d", c06ErrString(derr), c06AttrString(msg.PathAttributes), len(msg.WithdrawnRoutes), len(msg.NLRI))
+		if m.ap4 || m.ap6 {
+			ids := func(l []PathNLRI) string {
+				if len(l) == 0 {
+					return "-"
+				}
+				s := make([]string, len(l))
+				for i, p := range l {
+					s[i] = fmt.Sprint(p.ID)
+				}
+				return strings.Join(s, ".")
+			}
+			line += fmt.Sprintf(" nid=%s wid=%s", ids(msg.NLRI), ids(msg.WithdrawnRoutes))
+		}
+		o.ask(line, "dec %s", arg)
 	}
 
 	// ---- oracles on the decoder alone
@@ -149,13 +178,13 @@ func c06Run(o *vOut, r *vRand, m *c06Msg, v6 bool, loopOk bool) {
 			return false
 		}()
 		if vp {
-			o.ask("panic", "val %s %d %s", cfg, c06B(m.use2), hx)
+			o.ask("panic", "val %s %s", cfg, arg)
 			o.fail("validate-panic", map[string]any{"body": hx, "faults": m.faultNames()})
 			return
 		}
 		o.stat(fmt.Sprintf("validate_class_%d", c06Class(verr)), 1)
 		o.ask(fmt.Sprintf("d=%s v=%s attrs=%s", c06ErrString(derr), c06ErrString(verr), c06AttrString(msg.PathAttributes)),
-			"val %s %d %s", cfg, c06B(m.use2), hx)
+			"val %s %s", cfg, arg)
 		if len(m.faults) == 0 && verr != nil && v6 {
 			o.fail("wellformed-penalised:validate", map[string]any{"body": hx, "err": verr.Error()})
 		}
@@ -200,7 +229,7 @@ func c06Run(o *vOut, r *vRand, m *c06Msg, v6 bool, loopOk bool) {
 			}
 		}
 	} else if cls < 4 {
-		o.ask(fmt.Sprintf("d=%s v=skipped attrs=%s", c06ErrString(derr), c06AttrString(msg.PathAttributes)), "val %s %d %s", cfg, c06B(m.use2), hx)
+		o.ask(fmt.Sprintf("d=%s v=skipped attrs=%s", c06ErrString(derr), c06AttrString(msg.PathAttributes)), "val %s %s", cfg, arg)
 	}
 }
 
@@ -281,6 +310,11 @@ func TestVerifC06(t *testing.T) {
 		}
 		if i < 3 || (nf == 2 && i < 40) {
 			o.sample(fmt.Sprintf("peer=%d faults=%s body=%s", peer, m.faultNames(), m.hex()))
+		}
+		if r.chance(25) {
+			// the same message as it looks on a session with ADD-PATH receive for IPv4 and / or IPv6 unicast
+			k := r.intn(3)
+			c06AddPathify(r, m, k != 1, k != 0)
 		}
 		c06Run(o, r, m, !r.chance(12), r.chance(20))
 	}
